@@ -404,6 +404,25 @@ fn one_mrhs<T: Sc>(out: &mut Out, rng: &mut Rng, thorough: bool, i: usize) {
     if c.origin == "random" {
         c.origin = "mrhs";
     }
+    // one case in forty (double precision): MANY right-hand sides (64) over a basis with a condition
+    // number of ~1e12 - a constant next to the late tail of a decay (singular values ~7 and ~1e-12, far
+    // above the default threshold): whether a direction is kept must not depend on HOW MANY right-hand
+    // sides are fitted together
+    if i % 40 == 17 && T::WIDTH == 64 {
+        let n = 50;
+        c.recipe = Recipe {
+            names: vec![NAMES[0].to_string()],
+            fns: vec![FnSpec { kind: Kind::One, params: vec![] }, FnSpec { kind: Kind::Exp, params: vec![0] }],
+            x: (0..n).map(|k| 28.0 + 3.0 * k as f64 / (n - 1) as f64).collect(),
+        };
+        c.init = vec![T::of(1.0)];
+        c.history = vec![vec![T::of(1.0)]];
+        c.w = None;
+        c.wkind = "none";
+        c.eps = None;
+        c.y = DMatrix::from_fn(n, 64, |r, col| T::of(((r * 7 + col * 13) % 17) as f64 / 16.0 + 1.0 + col as f64 * 0.125));
+        c.origin = "mrhs-illcond";
+    }
     let n = c.recipe.n();
     // duplicated / linearly dependent / single columns
     match i % 5 {
